@@ -165,7 +165,7 @@ THM_RE = re.compile(r"^\s*(Theorem|Lemma|Example|Corollary)\s+([A-Za-z0-9_']+)",
 
 # further statement-only files whose theorems belong to a property (same rules as properties/Cxx.v)
 EXTRA_PROPERTY_FILES = {
-    "C19": ["C19_conflicts"],                 # cost of output-conflict detection
+    "C19": ["C19_conflicts", "C19_propagation"],                 # cost of output-conflict detection
     "C05": ["LIFTMIN"], "C13": ["LIFTMIN"], "C14": ["LIFTMIN"],   # the build-level theorems for both load_outputs modes
     "C01": ["SCHED", "KEYFAITH"], "C02": ["SCHED"], "C15": ["SCHED"],        # schedule independence of the sequential semantics
     "C09": ["KEYFAITH"],                      # KEYFAITH: C01's guard key_faithful follows from C09's injectivity + structural guards
